@@ -22,19 +22,19 @@ NOTE_E1 = ("Exhaustive within the stated deviation bounds of the listed scenario
 CHECKS = {
     "C01": dict(built=True, engine=E1, level=MC, design="4/C01",
         technique="stateless model checking: deviation-bounded DFS over schedules and transport faults of the real goroutine code under a controlled scheduler (synctest bubble); plus exhaustive window arithmetic for every sequence-space size",
-        text="Every execution of the uni/bidi scenarios with at most the listed numbers of scheduling deviations and transport faults (drop, in-order dup, delay) is run on the real code and the prefix oracle (Recv results are a prefix of Send-accepted payloads, byte-equal, both directions) is evaluated at every quiescent state. The window arithmetic that depends on N is enumerated for every sequence space s=2..255.",
+        text="Every execution of the uni/bidi/burst/chunked scenarios, of a late sender after handshake faults and of a late receiver, with at most the listed numbers of scheduling deviations and transport faults (drop, in-order dup, delay), is run on the real code and the prefix oracle (Recv results are a prefix of Send-accepted payloads, byte-equal, both directions) is evaluated at every quiescent state. The window arithmetic that depends on N is enumerated for every sequence space s=2..255.",
         note=NOTE_E1),
     "C05": dict(built=True, engine=E3, level=MC, design="4/C05",
         technique="stateless model checking of the composed stack (mailbox Server/Client, ServerConn/ClientConn, GBN, Noise) over an in-memory hashmail relay: deviation-bounded DFS over schedules and relay faults (message drop, delay, stream kill)",
-        text="Every execution within budget of a full paired session (Server.Accept + Client.Dial, both GBN handshakes, both Noise handshakes, writes of 1..65535 bytes both ways, application-level final ack, hang-up) on the instrumented real code over a fake relay that follows aperture's stream semantics: at every quiescent state the bytes read are a prefix of the bytes written per direction, no message the relay ever saw contains an 8-byte plaintext or auth-payload window, and at the end (100 s after the last fault) the transfer completed or some call reported an error.",
+        text="Every execution within budget of full paired sessions (Server.Accept + Client.Dial, both GBN handshakes, both Noise handshakes on one NoiseGrpcConn per side as gRPC uses it, writes of 1..65535 bytes both ways read with gRPC-sized and mixed buffers, application-level final ack, hang-up) on the instrumented real code over a fake relay that follows aperture's stream semantics, with drop / delay / stream-kill faults and a relay restart, downtime or lossy period at any idle point, and applications that abandon a session mid-record or do not reconnect: at every quiescent state the bytes a session has read are a prefix of what the peer writes, no message the relay ever saw contains an 8-byte plaintext or auth-payload window, and at the end (100 s after the last fault) no session is left stalled without a call having reported an error before the harness shut down.",
         note=NOTE_E1 + " The relay model (one reader/writer per stream, FIFO, rejected first message lost, release when the holder's context is done) is taken from aperture v0.3.11; its rate limiter and pipe back-pressure are represented by the delay fault only. The websocket transport is not driven."),
     "C11": dict(built=True, engine=E3, level=MC, design="4/C11",
         technique="stateless model checking of consecutive sessions through Server.Accept / Client.Dial over the fake relay, with the close-by-client / close-by-server / relay-failure events placed by the scheduler and an unpaired intruder client",
-        text="Two or three consecutive sessions with re-entering accept and dial loops: a connection is never handed out while the previous one of that side is still open; after a close the next Accept/Dial yields a working connection that transfers data; after a version-2 pairing both sides present the same new key-derived stream ids and use KK; a different client with only the original passphrase never completes a handshake and never receives the auth payload.",
+        text="Two or three consecutive sessions with re-entering accept and dial loops over one NoiseGrpcConn per side: a connection is never handed out while the previous one of that side is open, nor (without relay faults) while neither application has begun to close it or while the application's Close is still running, and no call fails on a connection nobody has begun to close; after a close or a relay fault (kill, restart, downtime) that interrupted an owed session both sides get a working connection again; a side stores the peer's key only in a handshake it completes; after a version-2 pairing every later handshake really runs KK on the new key-derived stream ids, the same on both sides; a different client with only the original passphrase never completes a handshake and never receives the auth payload.",
         note=NOTE_E1 + " The intruder is started after the first (pairing) session has ended."),
     "C06": dict(built=True, engine=E1, level=MC, design="4/C06",
         technique="stateless model checking of the real goroutine code: every execution with bounded fault prefixes (drop/dup/delay after a clean handshake) and scheduling deviations, virtual time to a 150 s horizon, progress/quiet oracles",
-        text="All executions of the uni/bidi/adaptive/keepalive traffic scenarios within the listed deviation budgets are run to a horizon far beyond any recovery time; at the end every accepted message must have been delivered (keepalive off: no endpoint may have closed), no call may hang after a self-closure, and after everything is acknowledged no DATA packet may be transmitted for 12 s.",
+        text="All executions of the uni/bidi/adaptive/keepalive/asymmetric-timeout/late-receiver/streaming-peer traffic scenarios within the listed deviation budgets are run to a horizon far beyond any recovery time; at the end every accepted message must have been delivered (keepalive off: no endpoint may have closed), no Send may have been blocked for a minute on a healthy open connection whose peer waits in Recv, no call may hang after a self-closure, under a streaming peer a message is delivered within 10 s of the last fault, and once everything is acknowledged retransmission stops.",
         note=NOTE_E1 + " Goroutines are not starved (virtual time only advances when no thread can run). Lasso detection is replaced by the long horizon."),
     "C07": dict(built=True, engine=E1 + "+" + E2, level=MC, design="4/C07",
         technique="bounded-exhaustive decoder input enumeration (all byte strings <= 3 bytes, 4 bytes by tier) plus model checking of live endpoints with one hostile packet injected at every quiescent point, all 256 SYN window bytes, and bounded-exhaustive truncation/substitution of Noise handshake acts and records",
@@ -42,31 +42,31 @@ CHECKS = {
         note=NOTE_E1 + " Longer random byte strings are not enumerated."),
     "C09": dict(built=True, engine=E1, level=MC, design="4/C09",
         technique="stateless model checking of the real goroutine code with ACKs held in flight; white-box window invariants and a black-box outstanding-packet model evaluated at every quiescent state; exhaustive window arithmetic for every s",
-        text="fullwindow scenarios (N=1,2,3 under the deviation ladder, N=20/254 canonical): first N Sends return without virtual time passing, Send N+1 stays blocked while no acknowledgement has been delivered, size<=n, base/top<s, s=n+1 on both endpoints, and first transmissions minus acknowledged (unbounded-integer model fed from the wire log) <= N at every state.",
+        text="fullwindow scenarios (N=1,2,3 under the deviation ladder, N=20/254 canonical), plain lossy traffic, keepalive pings taking the last slot, and every proposed window byte: first N Sends return without virtual time passing, Send N+1 stays blocked while no acknowledgement has been delivered, size<=n, base/top<s, s=n+1 on both endpoints, and first transmissions minus acknowledged (unbounded-integer model fed from the wire log; an acknowledgement counts from its delivery but may take effect later) <= N at every state.",
         note=NOTE_E1),
     "C10": dict(built=True, engine=E1, level=MC, design="4/C10",
         technique="stateless model checking of client and server handshakes: all drop/dup/delay patterns within budget over handshake packets, every stale-packet prefix of length <= 2 in either direction, both start orders, all 256 proposed window bytes through a raw client",
-        text="At every quiescent state a server in the data phase must use exactly the window the client proposed (1..254); at the end (30+ s after the last fault) a side in the data phase with the other still silently handshaking is a violation; the canonical clean run must connect and pass a message each way.",
+        text="At every quiescent state a server in the data phase has 1<=n<=254 and, when both ends are in the data phase, both use the window the client proposed; at the end (30+ s after the last fault) neither 'one side in the data phase, the other silently handshaking' nor 'both still handshaking with no error anywhere' may hold; the canonical clean run must connect and pass a message each way.",
         note=NOTE_E1 + " A connection torn down visibly by a late duplicate SYN counts as 'fails visibly' (allowed by the statement)."),
     "C12": dict(built=True, engine=E1, level=MC, design="4/C12",
         technique="stateless model checking with closer threads / context cancellation injected at every scheduling point (also twice per side and on both sides), drain phase in virtual time, leak oracle over the scheduler's thread table",
-        text="Close (and a second Close, and later Send/Recv) is injected at every choice point of the traffic and stalled-link scenarios; oracles: every Close returns within 10 s virtual, calls started after it fail, blocked calls return, the peer's calls fail when the transport works, and 30 s after both ends are closed no goroutine spawned by the connection is alive.",
+        text="Close (and a second Close, and later Send/Recv) is injected at every choice point of the traffic, stalled-link, blocked-transport and never-reading-application scenarios, also twice per side; oracles: every Close returns within 1.5 s virtual, when any Close call returns no call of the connection into its transport is in progress and none starts later, calls started after it fail, blocked calls return, the peer's calls fail when the transport works, and 30 s after both ends are closed no goroutine spawned by the connection is alive.",
         note=NOTE_E1),
     "C13": dict(built=True, engine=E1, level=MC, design="4/C13",
         technique="stateless model checking with a blackhole fault placed at every scheduling point (idle, sending, full window) and fixed-latency healthy links; virtual time",
-        text="Dead peer: after the transport goes silent at any point, every endpoint with keepalive must have closed by blackhole + ping + pong + 12 s and its calls must fail. Live peer: with one-way latency 0, pong/4 and just under pong/2 over 45 s idle, no endpoint may close, under every single scheduling deviation.",
+        text="Dead peer: after the transport goes silent at any point (idle, sending, full window, ping below and above pong, a paced sender with a large window), every endpoint with keepalive must have closed by blackhole + ping + pong + 12 s and its calls must fail. Live peer: with one-way latency 0, pong/4 and just under pong/2 over 45 s idle, no endpoint may close, under every single scheduling deviation.",
         note=NOTE_E1),
     "C14": dict(built=True, engine=E1, level=MC, design="4/C14",
         technique="exhaustive product of chunk sizes x message-length sequences on the canonical schedule plus deviation-bounded model checking with faults and with receive/send deadlines expiring inside a message",
-        text="Every (maxChunkSize 0..4) x (sequence of up to 2 (quick) / 3 (thorough) messages of length 0..8 / 0..12) is run on the real connection; selected sequences under the deviation ladder; deadlines that expire between chunks with the timed-out call retried. Oracle: Recv results equal Send-accepted payloads element- and byte-wise.",
+        text="Every (maxChunkSize 0..4) x (sequence of up to 2 (quick) / 3 (thorough) messages of length 0..8 / 0..12) is run on the real connection; selected sequences under the deviation ladder; a receiver that starts late; deadlines that expire between chunks with the timed-out call retried. Oracle: Recv results equal Send-accepted payloads element- and byte-wise.",
         note=NOTE_E1),
     "C18": dict(built=True, engine=E1, level=MC, design="4/C18",
         technique="stateless model checking with every lock/atomic/Once/WaitGroup operation as a scheduling point (deciding step; a free-running -race pass of the same scenario bodies is auxiliary): unit seams (two threads on one ticker, three on one timeout manager) and the whole connection with API calls from several goroutines and traffic timed onto timer expiries; panic and deadlock oracles",
-        text="All interleavings within budget of the ticker and timeout-manager seams and of a keepalive connection whose peer traffic arrives at the instant of the ping tick (and one quantum either side): no recovered panic in any thread, no thread left waiting for a lock/Once/WaitGroup after the drain.",
+        text="All interleavings within budget of the ticker, timeout-manager and send-queue seams and of a keepalive connection whose peer traffic arrives at the instant of the ping tick (and one quantum either side), every lock/atomic/Once/WaitGroup operation being a scheduling point: no recovered panic in any thread, no thread left waiting for a lock/Once/WaitGroup after the drain. Auxiliary part: the same bodies plus lossy and looped scenarios run free under the race detector with the real sync types.",
         note=NOTE_E1 + " Data races proper are not decided by the exhaustive step (the cooperative scheduler's hand-offs hide them from the race detector); they are looked for by a separate free-running -race pass reported as auxiliary evidence."),
     "C02": dict(built=True, engine=E2, level=FE, design="4/C02",
         technique="bounded-exhaustive enumeration of adversarial edit scripts over the ciphertext record stream (every single-bit flip of every record; drop/dup/swap/replay/reflect/inject/truncate at every position) replayed against the real Machine / NoiseConn after a real handshake",
-        text="After a real XX (v0, v2) or KK handshake, streams of 3-4 records (sizes 0,1,5; equal plaintexts included) are written by the real machine, edited by the man in the middle and read by the real peer through Machine.ReadMessage and NoiseConn; the reader (which, like every net.Conn consumer, stops at the first error) must only ever see a prefix of what was written, a record that differs on the wire must never be accepted, and every deviation must surface as an error.",
+        text="After a real XX (v0, v2) or KK handshake, streams of records (sizes 0,1,2,5; equal plaintexts and header-sized bodies included; long streams across key rotations) are written by the real machine, edited by the man in the middle and read by the real peer through Machine.ReadMessage, NoiseConn.ReadNextMessage and the two-step ReadNextHeader/ReadNextBody API by a reader that carries on after errors: everything it is ever handed, concatenated, must be a prefix of what was written, no record that differs on the wire may be accepted before the first error, and every deviation must surface as an error.",
         note="Cryptographic strength of ChaCha20-Poly1305 is trusted. The reader model stops at the first read error; that later genuine records would still decrypt for a reader that ignores errors is reported as an informational count. Multi-edit scripts beyond ordered pairs are not enumerated."),
     "C03": dict(built=True, engine=E2, level=EX, design="4/C03",
         technique="bounded-exhaustive enumeration of secret / key mismatches (every single-bit difference of the 112-bit secret, all expected-key mismatches over 4 static keys) on the real handshake over an in-memory duplex that logs every byte the responder writes",
@@ -74,19 +74,19 @@ CHECKS = {
         note="scrypt cost lowered to N=16 for bulk cases (package variable behind a verif-tag setter); static keys from a fixed list; secp256k1/scrypt strength trusted."),
     "C04": dict(built=True, engine=E2, level=FE, design="4/C04",
         technique="bounded-exhaustive enumeration of handshake configurations and man-in-the-middle rewrites (all 162 version-range x pattern configurations; every combination of version-byte substitutions; every single-bit flip of every act byte) on the real Machine",
-        text="Whenever both real DoHandshake calls complete, the views (version, complementary keys, peer static keys, stored key, auth payload byte-for-byte, callbacks) must agree; untampered compatible configurations must complete.",
+        text="Whenever both real DoHandshake calls complete, the views (version within both ranges, complementary keys, peer static keys, stored key, auth payload byte-for-byte) must agree; untampered compatible configurations must complete; a reconnect on the same ConnData with a changed auth payload leaves the initiator holding exactly the new one; a party whose handshake failed because the transport broke at one of its act writes holds no keys, no stored peer key, no auth payload.",
         note="scrypt cost lowered; payload sizes {0,1,498,499,600,65535,65536,(2MiB)}; bit flips on representative configurations only."),
     "C08": dict(built=True, engine=E2, level=EX, design="4/C08",
         technique="bounded-exhaustive enumeration of record-stream histories across key rotations (every prefix length up to 8/24 rotations, sizes 0/1/65535 around every boundary, all 70 interleavings of 4+4 records at a boundary) with a (key, nonce) uniqueness oracle on the real cipher states",
-        text="After every record: reader output equals writer input, the (key, nonce) pair of both encryptions has never been used before, ciphertexts of equal plaintexts never repeat, the key changes exactly at the rotation interval, writer and reader cipher states are identical, and no 8-byte window of plaintext or auth payload is on the wire.",
+        text="After every record: reader output equals writer input, the (key, nonce) pair of both encryptions has never been used before, ciphertexts of equal plaintexts never repeat, the key changes exactly at the rotation interval, writer and reader cipher states are identical, a write refused while a record is pending leaves the cipher untouched, and no 8-byte window of plaintext or auth payload is on the wire.",
         note="State observed through verif-tag accessors before and after each record; AEAD strength trusted."),
     "C15": dict(built=True, engine=E2, level=EX, design="4/C15",
         technique="bounded-exhaustive enumeration of write-size sequences x read-buffer-size sequences against a byte-stream reference model, for NoiseGrpcConn, NoiseConn and connKit",
-        text="Every write sequence of length <= 3 over {0,1,2,3} x every cycled read-buffer sequence over {1,2,3,4}, plus boundary sizes around 32 KiB and 64 KiB with buffers from 1 byte to 70000: 0<=n<=len(buf), nothing written beyond the buffer, bytes read == bytes written, oversize writes rejected or chunked, no EOF in the middle of an open stream.",
+        text="Every write sequence of length <= 3 over {0,1,2,3} x every cycled read-buffer sequence over {1,2,3,4}, plus boundary sizes around 32 KiB and 64 KiB with buffers from 1 byte to 70000, multi-record NoiseConn writes and NoiseGrpcConn writes over a transport that times out part of the way: 0<=n<=len(buf), nothing written beyond the buffer, bytes read == bytes written (no byte lost or delivered twice), oversize writes rejected or chunked, no EOF in the middle of an open stream.",
         note="The reference model is the concatenation of accepted writes."),
     "C16": dict(built=True, engine=E2, level=FE, design="4/C16",
         technique="bounded-exhaustive enumeration of transport fragmentations (every uniform read size, every two-way and three-way cut of every handshake act and record) and of partial-write scripts (every two- and three-way partition of a record separated by timeouts) against the unfragmented run",
-        text="A fragmented handshake / record must behave exactly like the unfragmented one; repeated Flush after partial writes must emit exactly the record once, report exactly the plaintext length in total, and WriteMessage must refuse a new record while one is pending.",
+        text="A fragmented handshake / record (also with the last act coalesced with the next record, and with EOF reported together with the last bytes) must behave exactly like the unfragmented one; repeated Flush after partial writes must emit exactly the record once, report exactly the plaintext length in total, WriteMessage must refuse a new record while one is pending without touching the cipher, and the record written afterwards must decrypt at the peer.",
         note="Three-way cuts of acts longer than 120 bytes use field-boundary offsets and every 37th offset."),
     "C17": dict(built=True, engine=E2, level=MC, design="4/C17",
         technique="bounded-exhaustive enumeration of the mnemonic codec position-wise (every value of every word, every bit of the entropy) and of SID derivation over all ordered pairs of 8 static keys x 4 secrets; plus stateless model checking (deviation-bounded DFS under the controlled scheduler) of consecutive sessions through the real Server/Client over a fake relay, judging the stream ids every handed-out connection uses",
